@@ -252,6 +252,9 @@ func (s *Scanner) Next() (lexeme.LexEvent, bool) {
 		case lexeme.InlineAnnotationTextBegin:
 			return s.processingFoundLexeme(lexeme.InlineAnnotationTextEnd), true
 		case lexeme.TypesShortcutBegin:
+			if s.unfinishedLiteral { // the data ends after "@" or "|"
+				break
+			}
 			s.found(lexeme.MixedValueEnd)
 			return s.processingFoundLexeme(lexeme.TypesShortcutEnd), true
 		}
@@ -1167,6 +1170,7 @@ func stateNul(s *Scanner, c byte) state {
 func stateTypesShortcutBeginOfSchemaName(s *Scanner, c byte) state {
 	if bytes.IsValidUserTypeNameByte(c) {
 		s.step = stateTypesShortcutSchemaName
+		s.unfinishedLiteral = false
 		return scanContinue
 	}
 	panic(s.newDocumentErrorAtCharacter("in schema name"))
@@ -1194,6 +1198,7 @@ func stateTypesShortcutSchemaName(s *Scanner, c byte) state {
 
 	case c == '|':
 		s.step = stateTypesShortcutAfterPipe
+		s.unfinishedLiteral = true
 
 	default:
 		return stateEndValue(s, c)
@@ -1220,6 +1225,7 @@ func stateTypesShortcutBeforePipe(s *Scanner, c byte) state {
 
 	case c == '|':
 		s.step = stateTypesShortcutAfterPipe
+		s.unfinishedLiteral = true
 
 	default:
 		s.step = stateEndValue
